@@ -44,6 +44,9 @@ var c10Hostile = []string{".", "..", "a/../b", "../x", "../bk1/x", "../bk1/a", "
 	"_meta", "bucket/bk0", "metadata", "buckets", "metadata/bk0/a", ".modtime-resolution", "A", "é", "é", "a b", "a+b", "a%2Fb", "a_b", "d_x", "d\\x",
 	strings.Repeat("s", 255), strings.Repeat("s", 256), strings.Repeat("l", 200) + "/" + strings.Repeat("m", 200), "\x00", "a\x00b", "nul\x00", "a\nb", " ", " a", "a ", "*", "?", "a?b", "a#b", "..a/..b", "a/b/../../../x"}
 
+// bucket names that must not reach another bucket or a backend's internals
+var c10HostileBuckets = []string{".", "..", "_META", "_Meta", "_meta", "BK0", "Bk1", "bk0.", "bk", "bk00", "bk0x", "%2e", "%2E%2E", "buckets", "metadata", "bk0%2Fa", "bk0\\a", "bucket", "-bk0", "bk0-"}
+
 var c10Normal = []string{"a", "d/x", "d/y", "z", "new"}
 
 // initial contents
@@ -272,7 +275,7 @@ func (e *c10Env) step(op c10Op) (ds []disc, accepted bool) {
 	isFs := e.st.Kind.IsFs()
 	allowed := func(b, k string) bool {
 		if b != op.B || !mutating {
-			return false
+			return false // in particular: an op addressed to any other bucket name (".", "BK0", …) must not touch bk0 / bk1
 		}
 		if k == addrKey {
 			return true
@@ -404,7 +407,7 @@ func c10Internal(k backends.Kind) []disc {
 	e := newC10Env(k)
 	defer e.st.Close()
 	var ds []disc
-	for _, name := range []string{"_meta"} {
+	for _, name := range []string{"_meta", "_META", "_Meta"} {
 		for _, probe := range []struct {
 			m, p string
 			body []byte
@@ -513,6 +516,25 @@ func c10Run(t *testing.T, c *evid.Collector) {
 					}
 					ds, acc := c10Exec(cs)
 					record("framing", cs, ds, acc, "enumerated")
+				}
+			}
+		}
+	}
+	// ---- hostile bucket names: nothing addressed to them may touch bk0 / bk1
+	for _, k := range kinds {
+		for _, b := range c10HostileBuckets {
+			for _, opk := range []string{"put", "get", "head", "del", "mdel", "copy-to", "list-prefix", "api-put", "api-get", "api-del", "rmbucket", "mkbucket", "post", "complete"} {
+				for _, key := range []string{"a", "x", "bk0/a", "d/x"} {
+					n++
+					if n%evid.Shards() != evid.Shard() {
+						continue
+					}
+					if (opk == "rmbucket" || opk == "mkbucket") && key != "a" {
+						continue
+					}
+					cs := c10Case{Backend: k, Ops: []c10Op{{K: opk, B: b, Key: key, Body: "hostile bucket"}}}
+					ds, acc := c10Exec(cs)
+					record("framing", cs, ds, acc, "hostile-buckets")
 				}
 			}
 		}
